@@ -12,6 +12,7 @@ The exhaustive part imports every target of the mapping table.
 import ast
 import collections
 import importlib
+import os
 
 from hypothesis import strategies as st
 
@@ -44,10 +45,69 @@ def _mapping():
     return mapping
 
 
+FS_CASES = [
+    {"fs": {"a.py": "from district42 import schema, optional\nx = 1\n",
+            "pkg/b.py": "import os; from valera import validate as v; y = 2\r\n",
+            "pkg/deep/c.py": "x = 'no imports here'\n",
+            "pkg/deep/d.py": "from revolt import substitute\nfrom os import path\n",
+            ".hidden/e.py": "from district42 import schema\n",
+            "pkg/__pycache__/f.py": "from district42 import schema\n",
+            "notes.txt": "from district42 import schema\n",
+            "broken.py": "from district42 import (\n"}},
+]
+
+
 def exhaustive(tier):
     for mod, names in _mapping().items():
         for name, (nm, nn) in names.items():
             yield {"target": [mod, name, nm, nn]}
+    yield from FS_CASES
+
+
+def _check_fs(case, ctx):
+    """the directory walker of the CLI (d42 v1-to-v2 <dir>): .py files outside hidden / __pycache__
+    directories are rewritten by the same rule, everything else is left byte-identical"""
+    import contextlib
+    import io
+    import shutil
+    import tempfile
+    from d42.migration.migrate_v1_to_v2 import migrate_v1_to_v2
+    mapping = _mapping()
+    root = tempfile.mkdtemp(prefix="c19fs-")
+    try:
+        for rel, text in case["fs"].items():
+            path = os.path.join(root, rel)
+            os.makedirs(os.path.dirname(path), exist_ok=True)
+            with open(path, "w", encoding="utf-8", newline="") as fh:
+                fh.write(text)
+        try:
+            with contextlib.redirect_stdout(io.StringIO()):
+                migrate_v1_to_v2(root)
+        except Exception as e:  # noqa
+            raise Violation("migrate-raises", f"migrate_v1_to_v2 raised {e!r} on {sorted(case['fs'])!r}")
+        for rel, text in case["fs"].items():
+            with open(os.path.join(root, rel), encoding="utf-8", newline="") as fh:
+                now = fh.read()
+            skip = not rel.endswith(".py") or any(part.startswith(".") or part == "__pycache__"
+                                                  for part in rel.split("/")[:-1])
+            try:
+                ast.parse(text)
+                parses = True
+            except SyntaxError:
+                parses = False
+            if skip or not parses:
+                if now != text:
+                    raise Violation("untouchable-file-changed", f"{rel}: {text!r} became {now!r}")
+                continue
+            as_read = text.replace("\r\n", "\n").replace("\r", "\n")   # the tool reads in text mode
+            if now in (text, as_read):
+                oracle(as_read, None, mapping)
+            else:
+                oracle(as_read, now.replace("\r\n", "\n"), mapping)
+    finally:
+        shutil.rmtree(root, ignore_errors=True)
+    ctx.label("directory-walk")
+    ctx.mark_nontrivial(case, sample_class="fs")
 
 
 # ---------------------------------------------------------------------------------------------
@@ -291,6 +351,8 @@ def check(case, ctx):
         ctx.label("mapping-target")
         ctx.mark_nontrivial(case, sample_class="target")
         return
+    if "fs" in case:
+        return _check_fs(case, ctx)
     src = case["src"] if "src" in case else render(case)
     try:
         ast.parse(src)
